@@ -19,7 +19,16 @@ Definition olist_eqb := opt_eqb (list_eqb Z.eqb).
 Definition target_eqb (a b : target) : bool :=
   ostr_eqb (t_unit a) (t_unit b) && ostr_eqb (t_label a) (t_label b) && list_eqb Z.eqb (t_shape a) (t_shape b)
   && list_eqb Z.eqb (t_cells a) (t_cells b).
+Definition oz_eqb := opt_eqb Z.eqb.
+Definition xdim_eqb (a b : xdim) : bool :=
+  match a, b with
+  | XRange t u l, XRange t' u' l' => olist_eqb t t' && ostr_eqb u u' && ostr_eqb l l'
+  | XSampled i u l o, XSampled i' u' l' o' => Z.eqb i i' && ostr_eqb u u' && ostr_eqb l l' && oz_eqb o o'
+  | XSet l, XSet l' => olist_eqb l l'
+  | _, _ => false
+  end.
 Definition state_eqb (a b : dstate) : bool :=
+  list_eqb xdim_eqb (extra a) (extra b) &&
   target_eqb (tg a) (tg b) &&
   olist_eqb (r_ticks (rd a)) (r_ticks (rd b)) && ostr_eqb (r_unit (rd a)) (r_unit (rd b)) &&
   ostr_eqb (r_label (rd a)) (r_label (rd b)) && olist_eqb (r_link (rd a)) (r_link (rd b)) &&
